@@ -470,6 +470,19 @@ def run(ck):
         fails.append(d)
         if m.get("because"):
             found_new_rec_failure = True
+    # a stall can be the machine, not the engine: an unclassified hang counts only if the case alone, with a much longer
+    # bound, still does not come back
+    hk = [d for d in fails if d["outcome"] == "hang" and ck.classify(d) is None]
+    if hk:
+        conf = run_cases(ck, [d["units"] for d in hk], fresh=True, batch=1, stall=300, mem_gb=4, stack_kb=8192, nproc=4, max_bad_per_case=1)
+        for d, r in zip(hk, conf):
+            k, o, probe_ok = outcome_of(r, len(d["units"]))
+            if k in ("ok", "err") and probe_ok:
+                fails.remove(d)
+            elif k != "hang":
+                d["outcome"] = k
+                if isinstance(o, dict):
+                    d.update({kk: v for kk, v in o.items() if kk in ("panic", "crash", "stderr")})
     if os.environ.get("C18_DUMP"):
         json.dump(fails, open(os.environ["C18_DUMP"], "w"), indent=1, default=str)
     for d in fails:
